@@ -340,6 +340,8 @@ def families(tier, seed):
        "template name(2) type(c:c) prio(2) loc(2) disp(2) with symbolic field characters")
     v2("dup-module", [(1, "mn"), b" py:module 0 first -\n", (1, "mn"), b" py:module 1 second", (1, "$ "), b"-\n", (1, "mn"), b" py:", (1, "mc"), b"odule 1 third -\n"],
        "three py:module-like entries with symbolic names: duplicate handling")
+    v2("dup-module-domain", [(1, "mn"), b" ", (1, "pc"), b"y:module 0 first -\n", (1, "mn"), b" ", (1, "pc"), b"y:module 1 second -\n"],
+       "two '*y:module' entries with symbolic name and domain (py / cy): only py:module duplicates keep the first entry")
     v2("dup-other", [(1, "ab"), b" std:label 0 first T\n", (1, "ab"), b" std:label 1 second -\n"], "duplicate non-module entries (last wins in both)")
     v2("two-lines", [(3, "a :1"), b" x:y 1 l -\n", (4, "a :1$"), b"\n"], "two lines with symbolic prefixes", required=False)
     for c in ([1] if q else [1, 2, 3]):
